@@ -47,6 +47,7 @@ def cases(tier, seed):
     nuser = 8 if tier == "quick" else 400
     for e in gen.enzyme_names():
         out.append({"kind": "user", "enzyme": e, "seed": seed, "nsig": nuser, "count": 12 if tier == "quick" else 40})
+    out.append({"kind": "user-on-kit-bases", "seed": seed, "count": 10 if tier == "quick" else 60})
     for b in ["ytk.YTKPart", "cidar.CIDARPart", "ecoflex.EcoFlexPart", "moclo.MoCloPart"]:
         out.append({"kind": "characterize-kit", "base": b, "seed": seed, "count": 60 if tier == "quick" else 8000})
     for j in range(0, 40 if tier == "quick" else 6000, 10):
@@ -219,6 +220,31 @@ def execute(mat, ctx):
             for mode, text in _texts(rng, P, sibs, mat["count"]):
                 _compare(ctx, P, text, mode)
         ctx.sample({"kind": "user", "enzyme": mat["enzyme"], "signatures": [list(c.signature) for c in classes][:4]}, cap=2)
+    elif kind == "user-on-kit-bases":
+        # user-defined part types whose module/vector base is a *kit* class (several of which override structure() by hand):
+        # a part derives its structure from cutter + signature + role only, so the reference stays the signature-free generic class
+        from moclo.core.parts import AbstractPart
+        from moclo.core.modules import AbstractModule
+        from moclo.core.vectors import AbstractVector
+
+        roles = [c for c in gen.concrete_kit_classes() if not issubclass(c, AbstractPart)]
+        rng = gen.rng_for(mat["seed"], PROP, "kitbases")
+        made = []
+        for j, role in enumerate(roles):
+            k = refmodel.geometry(role.cutter)[2]
+            for style in ("allN", "halfN", "exact"):
+                if style == "allN":
+                    sg = ("N" * k, "N" * k)
+                elif style == "halfN":
+                    sg = ("N" * k, gen.rand_dna(rng, k)) if rng.random() < 0.5 else (gen.rand_dna(rng, k), "N" * k)
+                else:
+                    sg = (gen.rand_dna(rng, k), gen.rand_dna(rng, k))
+                made.append(type(str("Any%s_%s" % (role.__name__, style)), (AbstractPart, role), {"cutter": role.cutter, "signature": sg}))
+        for P in made:
+            sibs = [q for q in made if q is not P and generic_for(q) is generic_for(P)]
+            for mode, text in _texts(rng, P, sibs, mat["count"]):
+                _compare(ctx, P, text, mode)
+        ctx.sample({"kind": kind, "bases": [r.__name__ for r in roles][:8], "signature_styles": ["allN", "halfN", "exact"]}, cap=1)
     elif kind == "characterize-kit":
         import importlib
 
